@@ -4,7 +4,7 @@
    operation lists; the un-repaired self-AddHeadMulti refuted. *)
 From Coq Require Import List Arith ZArith Bool Lia ZifyBool.
 From Muscle Require Import Cont.QueueModel Cont.QueueLemmas Cont.QueueInv Cont.QueueOps1 Cont.QueueEnsure
-  Cont.QueueOps2 Cont.QueueOps3 Cont.QueueProofs.
+  Cont.QueueOps2 Cont.QueueOps3 Cont.QueueSort Cont.QueueProofs.
 Import ListNotations.
 Local Open Scope nat_scope.
 
@@ -345,6 +345,8 @@ Proof.
   - (* InsertItemsAt(index, queue, start, num) *)
     destruct (insert_items_at_q_spec ow t (if self then abs t else abs r) idx start num It) as [J1 J2].
     apply F; auto. rewrite J2, abs_length. reflexivity.
+  - (* lexicographic comparison *)
+    cbn [fst snd]. split; [exact I|]. split; [reflexivity|]. rewrite lex_cmp_abs. reflexivity.
 Qed.
 
 (* ------------------------------------------------------------------ all two-queue operation lists *)
@@ -383,6 +385,23 @@ Theorem add_head_multi_self_old_refuted : exists q start num,
 Proof.
   exists (fst (run1 false 0%Z 3 [OEnsure 10 false 0 false; OAddTail 1%Z; OAddTail 2%Z; OAddTail 3%Z])), 0, 3.
   split; [apply run_refines; lia|]. split; [vm_compute; discriminate|vm_compute; reflexivity].
+Qed.
+
+(* Finding F35: before the repair SwapContentsAux left the moved-out items in the vacated in-object array, so the
+   representation invariant (unused in-object array all default for owning items) was lost -- which a later
+   shrink into that array followed by EnsureSize(n, true) turned into visible stale items. *)
+Theorem swap_contents_aux_old_refuted : exists sm lg,
+  inv true 3 sm /\ inv true 3 lg /\ st sm = SSmall /\ st lg <> SSmall /\
+  ~ inv true 3 (fst (swap_contents_aux_old sm lg)) /\
+  inv true 3 (fst (swap_contents_aux true sm lg)).
+Proof.
+  exists (fst (run1 true 0%Z 3 [OAddTail 5%Z])), (empty_q true 0%Z 3).
+  assert (I1 : inv true 3 (fst (run1 true 0%Z 3 [OAddTail 5%Z]))) by (apply run_refines; lia).
+  assert (I2 : inv true 3 (empty_q true 0%Z 3)) by (apply inv_empty; lia).
+  split; [exact I1|]. split; [exact I2|]. split; [reflexivity|]. split; [discriminate|]. split.
+  - intros I. destruct (inv_inl _ _ _ I) as [_ H]; [discriminate|].
+    specialize (H eq_refl 0 ltac:(lia)). vm_compute in H. discriminate.
+  - apply (swap_contents_aux_spec 3 true _ _ I1 I2); [reflexivity|discriminate].
 Qed.
 
 (* non-vacuity of [inv2]: a reachable pair with one queue on the heap and one in its in-object array *)
